@@ -120,6 +120,13 @@ func (e *Eval) evalLoop(fr *frame, h *ssa.BasicBlock, body map[*ssa.BasicBlock]b
 				// stores are recorded; content otherwise kept
 			case okSB:
 				st[o] = SBC{Parts: []SBPart{{X: xName(o)}}}
+			case okBuf:
+				st[o] = topContent(o, "modified inside a loop")
+				if bc, ok := entry[o].(BufC); ok && bc.B.Src == "zero" {
+					// unknown inside the loop, but remembered to have been all zero before it (the
+					// element-wise copy idiom is recognised from that)
+					st[o] = BufC{BytesV{LenKnown: bc.B.LenKnown, Len: bc.B.Len, LenSym: bc.B.LenSym, Src: "⊤: loop head (was zero)"}}
+				}
 			default:
 				st[o] = topContent(o, "modified inside a loop")
 			}
@@ -305,6 +312,13 @@ func (e *Eval) evalLoop(fr *frame, h *ssa.BasicBlock, body map[*ssa.BasicBlock]b
 			// handled below (needs the closed forms)
 		case okSB:
 			// handled below (needs the closed forms)
+		case okBuf:
+			exitSt[o] = topContent(o, "modified inside a loop")
+			// buf[i] = s[i] for i = 0 … len(s)-1 with len(buf) == len(s): buf holds the bytes of s
+			if bc, ok := backSt[o].(BufC); ok && bc.B.CopyOf != nil && lp.lenOf != "" && lp.lenOfFirst == bc.B.CopyOf.Idx.L.A && bc.B.CopyOf.Idx.L.B == 1 &&
+				bc.B.CopyOf.Idx.L.A == 0 && bc.B.LenSym == lp.lenOf && "str:"+bc.B.CopyOf.S.String() == lp.lenOf && !breakLikeLoop(fr, h, body) {
+				exitSt[o] = BufC{BytesV{Src: "conv", Str: bc.B.CopyOf.S, LenSym: bc.B.LenSym}}
+			}
 		default:
 			exitSt[o] = topContent(o, "modified inside a loop")
 		}
@@ -395,6 +409,17 @@ func (e *Eval) evalLoop(fr *frame, h *ssa.BasicBlock, body map[*ssa.BasicBlock]b
 			continue
 		}
 		lp.refs = e.refs
+		// words[i] = tokens[i] for i = 0 … len(tokens)-1 with len(words) == len(tokens): an
+		// element-wise copy of the token slice
+		if T < 0 && lp.lenOf != "" && lp.lenOfFirst == 0 && ac.N.LenOf == lp.lenOf && len(ac.Stores) == 1 && ac.Top == "" && len(ac.Elems) == 0 && !breakLikeLoop(fr, h, body) {
+			st0 := ac.Stores[0]
+			if v, ok := st0.Val.(StrV); ok && v.Kind == skTok && v.Toks != nil && !st0.Cond &&
+				st0.Idx.Kind == ikLin && st0.Idx.L == (Lin{0, 1}) && v.Idx.Kind == ikLin && v.Idx.L == st0.Idx.L &&
+				fmt.Sprintf("tokens@%p", v.Toks) == lp.lenOf && everyIteration(st0.Site.Block(), lp) {
+				exitSt[o] = &ArrC{N: ac.N, Alias: v.Toks, id: ac.id}
+				continue
+			}
+		}
 		exitSt[o] = e.materialise(ac, lp)
 	}
 	// builders: X' = X ++ parts(t)  ⇒  X_T = X_0 ++ parts(0) ++ … ++ parts(T-1)
@@ -577,6 +602,21 @@ func (e *Eval) evalLoop(fr *frame, h *ssa.BasicBlock, body map[*ssa.BasicBlock]b
 	// blocks reached from inside the body keep their iteration-context edge states (set by evalBlock)
 }
 
+// breakLikeLoop: some edge leaves the loop from a block other than its header.
+func breakLikeLoop(fr *frame, h *ssa.BasicBlock, body map[*ssa.BasicBlock]bool) bool {
+	for b := range body {
+		if b == h {
+			continue
+		}
+		for _, s := range b.Succs {
+			if !body[s] {
+				return true
+			}
+		}
+	}
+	return false
+}
+
 func xName(o *Obj) string { return fmt.Sprintf("X%d", o.ID) }
 
 func termMentionsX(l Layout) bool {
@@ -671,6 +711,15 @@ func (e *Eval) tripCount(fr *frame, h *ssa.BasicBlock, body map[*ssa.BasicBlock]
 	if !okx || !oky || x.Kind != ikLin || y.Kind != ikLin {
 		// a counter against a bound that is not a constant but does not change while the loop
 		// runs: the number of iterations is unknown, but it is finite
+		lp.lenOf = ""
+		if xv, ok := e.val(fr, b.X).(IntV); ok && op == token.LSS && xv.Kind == ikLin && xv.L.B == 1 {
+			// the tested counter takes the values A, A+1, …: with the index used in the body being
+			// the counter itself the loop visits every position below the bound
+			if yv, ok := e.val(fr, b.Y).(IntV); ok && yv.Kind == ikRange && yv.LenOf != "" && loopInvariant(b.Y, body) {
+				lp.lenOf = yv.LenOf
+				lp.lenOfFirst = xv.L.A
+			}
+		}
 		if e.countsToInvariant(b.X, b.Y, op, body, fr) || e.countsToInvariant(b.Y, b.X, flipOp(op), body, fr) {
 			e.event("P5", Discharged, ifi, "loop in %s: a counter stepping by one towards a bound that is fixed while the loop runs", fr.fn.Name())
 			return -1, cont, exit, true
@@ -913,6 +962,13 @@ func (lp *loopCtx) resolveAV(v AV, t int64) AV {
 			return x
 		case skConst:
 			return x
+		case skArrElem:
+			if x.Idx.Kind == ikLin && x.Arr != nil {
+				if i := x.Idx.L.At(t); i >= 0 && i < int64(len(x.Arr.Elems)) && x.Arr.Elems[i] != nil {
+					return x.Arr.Elems[i]
+				}
+			}
+			return TopStr("element of a local slice that was not written")
 		}
 		return TopStr("value stored in loop: " + x.String())
 	case IntV:
